@@ -70,8 +70,15 @@ fn clone_state(s: &ParseState) -> ParseState {
 }
 
 /// load_words of a whole binary, then assemble, then load the output again.
-pub fn load_words_event(ws: &[u32]) -> Value {
-    let r = catch(|| dr::load_words(ws));
+pub fn load_words_event(ws: &[u32]) -> Value { load_via_event(ws, "words", &[]) }
+/// the same through another entry point that must do the same job: "bytes" = dr::load_bytes of the words' bytes followed by
+/// `tail` (1-3 bytes that are not a word), "default" = a Loader::default() driven by parse_words
+pub fn load_via_event(ws: &[u32], via: &str, tail: &[u8]) -> Value {
+    let r = catch(|| match via {
+        "bytes" => { let mut b = crate::parser::words_to_bytes(ws); b.extend_from_slice(tail); dr::load_bytes(&b) }
+        "default" => { let mut l = dr::Loader::default(); rspirv::binary::parse_words(ws, &mut l).map(|_| l.module()) }
+        _ => dr::load_words(ws),
+    });
     match r {
         Err(p) => json!({"st": "panic", "e": jpanic(&p)[1], "file": jpanic(&p)[2], "m": [], "out_st": "none", "out": [], "re_st": "none", "re": []}),
         Ok(Err(s)) => json!({"st": "err", "e": load_err_name(&s), "m": [], "out_st": "none", "out": [], "re_st": "none", "re": []}),
@@ -337,6 +344,16 @@ fn suite_raw(g: &Gram, out: &mut Out, rng: &mut Rng, n: usize) {
         }
         out.ev(json!({"ev": "rawload", "tag": tag, "layout": layout && tag != "raw-padnoise", "in_words": jws(&ws), "in_version": jw(ws[1]), "in_bound": jw(ws[3]),
                       "words": load_words_event(&ws)}));
+        // the other entry points of the loader on the same binary: load_bytes (also with 1-3 trailing bytes, which are not an
+        // instruction and must not become one) and a Loader::default() driven by parse_words
+        if tag == "raw-plain" || k % 4 == 0 {
+            let tails: [&[u8]; 6] = [&[], &[0, 0, 1], &[0x3d, 1, 1], &[0, 0], &[0], &[0xff, 0xff, 0xff]];
+            let t = tails[k % tails.len()];
+            out.ev(json!({"ev": "rawload", "tag": "raw-bytes", "layout": layout && tag != "raw-padnoise", "in_words": jws(&ws), "in_version": jw(ws[1]), "in_bound": jw(ws[3]),
+                          "words": load_via_event(&ws, "bytes", t)}));
+            out.ev(json!({"ev": "rawload", "tag": "raw-default", "layout": layout && tag != "raw-padnoise", "in_words": jws(&ws), "in_version": jw(ws[1]), "in_bound": jw(ws[3]),
+                          "words": load_via_event(&ws, "default", &[])}));
+        }
     }
 }
 
